@@ -30,6 +30,12 @@ def o_leak(case, out):
     return leak_check(case, out)[0]
 
 
+def o_spec(case, out):
+    """the documented sequence semantics (vlib/pyspec.py) evaluated on the implementation trace"""
+    from . import pyspec
+    return pyspec.check_case(case, out, Line)
+
+
 DOC_PANICS = {"P:range_end", "P:range_order", "P:range_start_overflow", "P:range_end_overflow",
               "P:swap_i", "P:swap_j", "P:index"}
 INJECTED = {"P:drop", "P:clone", "P:call", "P:next", "P:eq"}
